@@ -98,21 +98,40 @@ def coq_project_lines():
     return lines + sorted(vs)
 
 
-def ensure_static(verbose=False):
-    """Build (or no-op) the static theories under a lock; returns the make output."""
+def ensure_static(verbose=False, fresh=False):
+    """Build (or no-op) the static theories under a lock; returns the make output.  fresh: regenerate the Makefile
+    and the dependency file first (bin/setup); a build that fails is repeated once from regenerated ones, so that a
+    stale or truncated dependency file left behind by an interrupted run cannot fail it."""
     os.makedirs(BUILD, exist_ok=True)
     with open(os.path.join(BUILD, '.lock'), 'w') as lk:
         fcntl.flock(lk, fcntl.LOCK_EX)
         proj = '\n'.join(coq_project_lines()) + '\n'
         pf = os.path.join(COQ, '_CoqProject')
-        old = open(pf).read() if os.path.exists(pf) else ''
-        if old != proj or not os.path.exists(os.path.join(COQ, 'Makefile')):
+
+        def regenerate():
+            for name in ('Makefile', 'Makefile.conf', '.Makefile.d'):
+                try:
+                    os.remove(os.path.join(COQ, name))
+                except OSError:
+                    pass
             with open(pf, 'w') as f:
                 f.write(proj)
             subprocess.run(['coq_makefile', '-f', '_CoqProject', '-o', 'Makefile'], cwd=COQ,
                            check=True, stdout=subprocess.DEVNULL)
-        p = subprocess.run('ulimit -s unlimited; timeout 3000 make -j%d 2>&1' % NPROC, shell=True,
-                           cwd=COQ, stdout=subprocess.PIPE, universal_newlines=True)
+
+        def make():
+            return subprocess.run('ulimit -s unlimited; timeout 3000 make -j%d 2>&1' % NPROC, shell=True,
+                                  cwd=COQ, stdout=subprocess.PIPE, universal_newlines=True)
+        old = open(pf).read() if os.path.exists(pf) else ''
+        if fresh or old != proj or not os.path.exists(os.path.join(COQ, 'Makefile')):
+            regenerate()
+        p = make()
+        if p.returncode != 0:
+            first = p.stdout
+            regenerate()
+            p = make()
+            if p.returncode != 0:
+                p.stdout = first + '\n---- second attempt, Makefile and dependencies regenerated ----\n' + p.stdout
         out = p.stdout
         with open(os.path.join(BUILD, 'static.log'), 'a') as f:
             f.write(out)
